@@ -27,6 +27,12 @@ pub enum K {
     MRefsTo,
     MCheckRefs,
     MDebug,
+    /// `load_file` from the simulated disk. `n` bit 0: load what the disk holds under the name (otherwise the document
+    /// carried by the operation is put there first); bit 1: the read fails (injected fault)
+    MLoadFile,
+    /// `write()` to the simulated disk. `n % 100` = k > 0: the k-th file write of the call fails (injected fault),
+    /// leaving `n / 100` percent of that file on the disk (0: nothing)
+    MWrite,
     /// drop every handle to the model that the harness holds (files and elements stay)
     MDrop,
     // file
@@ -112,6 +118,8 @@ pub const ALL_KINDS: &[K] = &[
     K::ECreateNamedAt, K::ECopy, K::ECopyAt, K::EMove, K::EMoveAt, K::ERemove, K::ERemoveKind, K::ESetRef, K::ESetCData,
     K::ERemoveCData, K::EInsertCC, K::ERemoveCC, K::EGetOrCreate, K::EGetOrCreateNamed, K::ESetAttr, K::ESetAttrStr,
     K::ERemoveAttr, K::ESort, K::EAddToFile, K::ERemoveFromFile, K::ESetComment, K::ItOpen, K::ItNext,
+    // appended later (the order of the earlier entries is part of the scenario enumeration of C15 / C16)
+    K::MLoadFile, K::MWrite,
 ];
 
 #[derive(Clone, Copy, Debug, PartialEq, Eq)]
@@ -156,6 +164,7 @@ impl K {
             self,
             K::MCreateFile
                 | K::MLoadBuffer
+                | K::MLoadFile
                 | K::MRemoveFile
                 | K::MSort
                 | K::FSetVersion
@@ -190,6 +199,17 @@ impl K {
 
     pub fn name(self) -> String {
         format!("{self:?}")
+    }
+}
+
+/// the kind under which a call appears in behavioural signatures: `load_file` is "read the file, then `load_buffer`", so
+/// once the read has succeeded whatever happens is attributed to MLoadBuffer (and the listed findings of load_buffer
+/// apply); a failed read is MLoadFile's own
+pub fn sig_kind(op: &Op, ret: &Ret) -> String {
+    if op.k == K::MLoadFile && ret.err.as_deref() != Some("IoErrorRead") {
+        K::MLoadBuffer.name()
+    } else {
+        op.k.name()
     }
 }
 
@@ -328,6 +348,8 @@ pub struct Ret {
     /// the strings of this result are documented as best-effort under contention (compare by shape only)
     pub best_effort: bool,
     pub skipped: bool,
+    /// injected file-system faults that fired during the call
+    pub io_fired: u32,
 }
 
 impl Ret {
@@ -548,6 +570,60 @@ fn exec_inner(w: &World, label: u32, op: &Op) -> Option<Ret> {
                     r.s(format!("{e}"))
                 }
             }
+        }
+        K::MLoadFile => {
+            let m = w.model(op.a)?;
+            let path = std::path::Path::new(&op.s);
+            if op.n & 1 == 0 {
+                crate::simfs::put(path, &op.buffer());
+            }
+            crate::simfs::arm(crate::simfs::Armed { read_err: op.n & 2 != 0, fail_write: 0, torn_pct: 0 });
+            struct Disarm;
+            impl Drop for Disarm {
+                fn drop(&mut self) {
+                    crate::simfs::disarm();
+                }
+            }
+            let guard = Disarm;
+            let res = m.load_file(&op.s, op.flag);
+            std::mem::forget(guard);
+            let fired = crate::simfs::disarm();
+            let mut r = match res {
+                Ok((f, warnings)) => {
+                    let mut r = Ret::shape(&format!("Ok(warnings={})", warnings.len())).with(Item::F(f));
+                    for wn in warnings {
+                        r = r.s(format!("{wn}"));
+                    }
+                    r
+                }
+                Err(e) => {
+                    let mut r = err(&e);
+                    r.best_effort = true;
+                    r.s(format!("{e}"))
+                }
+            };
+            r.io_fired = fired;
+            r
+        }
+        K::MWrite => {
+            let m = w.model(op.a)?;
+            crate::simfs::arm(crate::simfs::Armed { read_err: false, fail_write: op.n % 100, torn_pct: op.n / 100 });
+            struct Disarm;
+            impl Drop for Disarm {
+                fn drop(&mut self) {
+                    crate::simfs::disarm();
+                }
+            }
+            let guard = Disarm;
+            let res = m.write();
+            std::mem::forget(guard);
+            let fired = crate::simfs::disarm();
+            let mut r = match res {
+                Ok(()) => Ret::shape("Ok"),
+                Err(e) => err(&e),
+            };
+            r.io_fired = fired;
+            r
         }
         K::MRemoveFile => {
             let m = w.model(op.a)?;
